@@ -22,7 +22,7 @@ pub struct ActorModelState<A: Actor, H = ()> {
 }
 
 /// Represents a set of random choices for one actor.
-#[derive(Clone, Debug, Serialize)]
+#[derive(Clone, Debug, Serialize, Hash, Eq, PartialEq)]
 pub struct RandomChoices<Random> {
     /// The map of random choices for an actor.
     ///
@@ -140,7 +140,16 @@ where
         self.actor_states.hash(state);
         self.history.hash(state);
         self.timers_set.hash(state);
+        // Actors without pending choices contribute nothing, so that a missing trailing entry and
+        // an empty one hash alike (mirrors `eq` below).
+        let len = self
+            .random_choices
+            .iter()
+            .rposition(|r| !r.map.is_empty())
+            .map_or(0, |i| i + 1);
+        self.random_choices[..len].hash(state);
         self.network.hash(state);
+        self.crashed.hash(state);
     }
 }
 
@@ -156,7 +165,15 @@ where
         self.actor_states.eq(&other.actor_states)
             && self.history.eq(&other.history)
             && self.timers_set.eq(&other.timers_set)
+            && (0..self.random_choices.len().max(other.random_choices.len())).all(|i| {
+                match (self.random_choices.get(i), other.random_choices.get(i)) {
+                    (Some(a), Some(b)) => a == b,
+                    (Some(r), None) | (None, Some(r)) => r.map.is_empty(),
+                    (None, None) => true,
+                }
+            })
             && self.network.eq(&other.network)
+            && self.crashed.eq(&other.crashed)
     }
 }
 
